@@ -3,6 +3,7 @@ Lean machine, compare traces (strictly, and projected onto the property's observ
 evaluate the property's Lean judge on the implementation's trace."""
 import json
 import os
+import re
 
 import dsl
 from common import Result, VERIF
@@ -115,6 +116,53 @@ class Suite:
         return self.res
 
 
+#: an AssertionError of the library somewhere in a trace / outcome (code 9)
+USAGE_ASSERTION = re.compile(r':(caught|rootexc|cleanup):(1,)?(3,)?9\b|:tfin:3,(3,)?9\b|crash (3,)?9\b|:resrej:|[|,]9[,|]')
+
+
+def run_config(env_extra, pyflags, scenarios):
+    """the scenarios [(kind, scenario)] in a fresh interpreter with the given flags / environment; one observation line each"""
+    import subprocess
+    from common import PYTHON, REPO
+    env = dict(os.environ, PYTHONPATH=REPO, USIM_VERIF_REPO=REPO)
+    env.pop('USIM_WAITQUEUE', None)
+    env.update(env_extra)
+    payload = '\n'.join(json.dumps({'kind': k, 'scenario': sc}, default=str) for k, sc in scenarios) + '\n'
+    p = subprocess.run([PYTHON] + pyflags + [os.path.join(VERIF, 'harness', 'worker.py')], input=payload, env=env,
+                       stdout=subprocess.PIPE, stderr=subprocess.DEVNULL, text=True, timeout=1800)
+    return p.stdout.strip('\n').split('\n') if p.stdout.strip() else []
+
+
+def judge_in_config(st, scenarios, name, env_extra, pyflags, params=None, judge_extra=None, refine=None):
+    """what the statement says must also hold in another configuration of the interpreter (`python -O`: usim's assertions are
+    gone, its documented errors are not): run the scenarios there and put every trace before the property's judge (the model
+    is not consulted: it describes assertions-on behaviour)"""
+    lines = run_config(env_extra, pyflags, [(st.kind, sc) for sc in scenarios])
+    st.res.count('config:' + name, len(lines))
+    if len(lines) != len(scenarios):
+        st.res.mismatch({'config': name}, '%d traces' % len(lines), '%d scenarios' % len(scenarios),
+                        'worker process in configuration %s did not return every trace' % name)
+        return
+    for k, (sc, line) in enumerate(zip(scenarios, lines)):
+        impl = dsl.parse_reply(line)
+        st.res.evaluations += 1
+        if params is not None:
+            st.judge_params = params(sc) if callable(params) else params
+        verdicts = [st.ask_judge(st.judge, st.judge_params, impl)]
+        for j, prm in ((judge_extra(sc) if callable(judge_extra) else judge_extra) or []):
+            verdicts.append(st.ask_judge(j, prm, impl))
+        for v in verdicts:
+            if v != 'ok':
+                for msg in v[len('fail: '):].split(' ;; '):
+                    key = {'clause': clause_of(msg), 'config': name}
+                    if refine:
+                        # (what a listed finding is keyed by; "as modelled" = the trace is also the machine's, assertions on)
+                        model = dsl.parse_reply(st.drv.ask(dsl.model_line(sc, st.kind)))
+                        key.update(refine(msg, impl, model, sc) or {})
+                    st.res.violation(key, msg + ' [configuration %s]' % name,
+                                     {'scenario': sc, 'kind': st.kind, 'config': name, 'env': env_extra, 'pyflags': pyflags})
+
+
 def corpus(pid):
     path = os.path.join(VERIF, 'corpus', pid + '.jsonl')
     if not os.path.exists(path):
@@ -138,7 +186,7 @@ def fix_fractions(x):
 
 
 def standard_run(pid, judge, tags, tier, seed, drv, sources, nontrivial=None, rule='', n_quick=150, n_thorough=5000,
-                 kind='rat', judge_params='', judge_extra=None, probes=None, refine=None):
+                 kind='rat', judge_params='', judge_extra=None, probes=None, refine=None, optimized=0):
     """sources: list of functions rng -> scenario, used round-robin; probes: list of
     (finding id, scenario) replayed first (dedicated probes of known findings)"""
     from common import rng_for
@@ -151,16 +199,27 @@ def standard_run(pid, judge, tags, tier, seed, drv, sources, nontrivial=None, ru
     for fid, sc in (probes or []):
         st.check(sc, nontrivial=nontrivial, probe=fid, judge_extra=judge_extra(sc) if callable(judge_extra) else judge_extra, refine=rf(sc))
     n = n_quick if tier == 'quick' else n_thorough
+    made = []
     for i in range(n):
         rng = rng_for(seed, pid, i)
         sc = sources[i % len(sources)](rng)
-        st.check(sc, nontrivial=nontrivial, judge_extra=judge_extra(sc) if callable(judge_extra) else judge_extra, refine=rf(sc))
+        impl = st.check(sc, nontrivial=nontrivial, judge_extra=judge_extra(sc) if callable(judge_extra) else judge_extra, refine=rf(sc))
+        if len(made) < optimized and not USAGE_ASSERTION.search(obs_line(impl)):
+            made.append(sc)
+    if optimized:
+        # generated scenarios once more under `python -O`, judged only (programs that trip one of usim's usage assertions in
+        # default mode are left out: without the assertion they go on into territory the statements do not describe)
+        judge_in_config(st, made, 'O', {}, ['-O'], judge_extra=judge_extra, refine=refine)
     return st.finish()
 
 
 def standard_replay(pid, judge, tags, data, drv, kind='rat', judge_params='', judge_extra=None, refine=None):
     st = Suite(pid, drv, judge, tags, kind=data.get('kind', kind), judge_params=judge_params)
     sc = fix_fractions(data.get('scenario') or data['case']['scenario'])
+    case = data if data.get('scenario') else data.get('case', {})
+    if case.get('pyflags') is not None and case.get('config'):
+        judge_in_config(st, [sc], case['config'], case.get('env') or {}, case['pyflags'], judge_extra=judge_extra, refine=refine)
+        return st.finish()
     st.check(sc, judge_extra=judge_extra(sc) if callable(judge_extra) else judge_extra,
              refine=(lambda msg, impl, model: refine(msg, impl, model, sc)) if refine else None)
     return st.finish()
